@@ -177,17 +177,22 @@ pub fn start_listener(cfg: &ListenerCfg, script: NetScript, workers: usize) -> R
 
 /// waits until a socket listens on the port (read from /proc/net/tcp, so that no probe connection
 /// reaches the code under test)
-pub fn wait_accepting(port: u16) {
-    let t0 = Instant::now();
+pub fn is_listening(port: u16) -> bool {
     let needle = format!(":{port:04X}");
-    loop {
-        let listening = std::fs::read_to_string("/proc/net/tcp").map(|t| {
+    std::fs::read_to_string("/proc/net/tcp")
+        .map(|t| {
             t.lines().skip(1).any(|l| {
                 let f: Vec<&str> = l.split_whitespace().collect();
                 f.len() > 3 && f[1].ends_with(&needle) && f[3] == "0A"
             })
-        });
-        if listening.unwrap_or(false) {
+        })
+        .unwrap_or(false)
+}
+
+pub fn wait_accepting(port: u16) {
+    let t0 = Instant::now();
+    loop {
+        if is_listening(port) {
             return;
         }
         if t0.elapsed() > Duration::from_secs(10) {
